@@ -9,6 +9,7 @@ import (
 	"os"
 	"runtime"
 	"sync"
+	"testing/iotest"
 
 	"github.com/biogo/hts/cram"
 	"github.com/biogo/hts/cram/encoding/itf8"
@@ -50,8 +51,15 @@ func enc32(t *tr.Writer, v int32) {
 	}
 	n := itf8.Encode(b[:], v)
 	dv, dn, dok := itf8.Decode(b[:n])
+	// nothing beyond the n bytes is written, and a destination of exactly Len(v) bytes is enough
+	clean := untouched(b[n:])
+	exact := func() (ok bool) {
+		defer func() { recover() }()
+		x := make([]byte, itf8.Len(v))
+		return itf8.Encode(x, v) == len(x) && bytes.Equal(x, b[:n])
+	}()
 	t.Ev("enc", tr.M{"sig": "itf8/enc/len" + class32(uint32(v)), "kind": "itf8", "v": limbs32(uint32(v)), "bytes": ints(b[:n]), "n": n,
-		"len": itf8.Len(v), "dv": limbs32(uint32(dv)), "dn": dn, "dok": dok})
+		"len": itf8.Len(v), "dv": limbs32(uint32(dv)), "dn": dn, "dok": dok, "clean": clean, "exact": exact})
 }
 
 func class64(u uint64) string {
@@ -71,8 +79,23 @@ func enc64(t *tr.Writer, v int64) {
 	}
 	n := ltf8.Encode(b[:], v)
 	dv, dn, dok := ltf8.Decode(b[:n])
+	clean := untouched(b[n:])
+	exact := func() (ok bool) {
+		defer func() { recover() }()
+		x := make([]byte, ltf8.Len(v))
+		return ltf8.Encode(x, v) == len(x) && bytes.Equal(x, b[:n])
+	}()
 	t.Ev("enc", tr.M{"sig": "ltf8/enc/len" + class64(uint64(v)), "kind": "ltf8", "v": limbs64(uint64(v)), "bytes": ints(b[:n]), "n": n,
-		"len": ltf8.Len(v), "dv": limbs64(uint64(dv)), "dn": dn, "dok": dok})
+		"len": ltf8.Len(v), "dv": limbs64(uint64(dv)), "dn": dn, "dok": dok, "clean": clean, "exact": exact})
+}
+
+func untouched(b []byte) bool {
+	for _, c := range b {
+		if c != 0xa5 {
+			return false
+		}
+	}
+	return true
 }
 
 type countReader struct {
@@ -106,27 +129,40 @@ func dec(t *tr.Writer, kind string, b []byte) {
 		}
 	}()
 	t.Ev("dec", tr.M{"sig": kind + "/dec", "kind": kind, "bytes": ints(b), "v": v, "n": n, "ok": ok, "res": res})
-	// stream reader of package cram over exactly these bytes
-	res = "ok"
-	cr := &countReader{r: bytes.NewReader(b)}
-	var err error
-	func() {
-		defer func() {
-			if r := recover(); r != nil {
-				res = fmt.Sprint("panic: ", r)
+	// stream readers of package cram over exactly these bytes, delivered in the ways an io.Reader
+	// may deliver them: all at once with io.EOF on the next call, the last bytes together with
+	// io.EOF, one byte per call, half of what is asked for per call
+	for _, rk := range []string{"plain", "dataerr", "onebyte", "half"} {
+		var src io.Reader = bytes.NewReader(b)
+		switch rk {
+		case "dataerr":
+			src = iotest.DataErrReader(src)
+		case "onebyte":
+			src = iotest.OneByteReader(src)
+		case "half":
+			src = iotest.HalfReader(src)
+		}
+		res = "ok"
+		cr := &countReader{r: src}
+		var err error
+		func() {
+			defer func() {
+				if r := recover(); r != nil {
+					res = fmt.Sprint("panic: ", r)
+				}
+			}()
+			if kind == "itf8" {
+				var x int32
+				x, err = cram.VerifITF8(cr)
+				v = limbs32(uint32(x))
+			} else {
+				var x int64
+				x, err = cram.VerifLTF8(cr)
+				v = limbs64(uint64(x))
 			}
 		}()
-		if kind == "itf8" {
-			var x int32
-			x, err = cram.VerifITF8(cr)
-			v = limbs32(uint32(x))
-		} else {
-			var x int64
-			x, err = cram.VerifLTF8(cr)
-			v = limbs64(uint64(x))
-		}
-	}()
-	t.Ev("sdec", tr.M{"sig": kind + "/sdec", "kind": kind, "bytes": ints(b), "v": v, "consumed": cr.n, "err": err != nil, "res": res})
+		t.Ev("sdec", tr.M{"sig": kind + "/sdec", "kind": kind, "rk": rk, "bytes": ints(b), "v": v, "consumed": cr.n, "err": err != nil, "res": res})
+	}
 }
 
 // Run records stratified encode/decode calls and decodes of byte strings by first-byte class.
